@@ -55,7 +55,17 @@ pub fn worker(args: &Args, w: &Worker) -> i32 {
     searchrun::quiet_panics();
     let g = grid(&args.tier);
     let n = w.nshards;
+    // one deliberately LARGE search per process, at a shard-dependent place in the sequence: for
+    // every pair some processes search it before their large search and others after it, so state
+    // that survives "emptying the cache" (capacity, counters, killers, ...) shows up as a
+    // cross-process difference
+    let big_at = (w.shard * g.len()) / n.max(1);
     for (k, (fen, hist, d)) in g.iter().enumerate() {
+        if k == big_at {
+            // ~0.55 M cache entries (quick) / ~3.2 M (thorough): far beyond any 1-16 MB budget
+            let _ = triple("8/2p5/3p4/KP5r/1R3p1k/8/4P1P1/8 w - - 0 1", &[], if args.tier == "thorough" { 13 } else { 11 });
+            w.count("large_searches", 1);
+        }
         // every pair is searched by three different processes
         let owners = [k % n, (k + 5) % n, (k + 11) % n];
         if !owners.contains(&w.shard) {
@@ -87,11 +97,22 @@ pub fn worker(args: &Args, w: &Worker) -> i32 {
     w.done()
 }
 
-fn run_bench() -> Result<u64, String> {
-    let out = std::process::Command::new(super::uciproc::engine_path())
-        .arg("bench")
-        .output()
-        .map_err(|e| e.to_string())?;
+fn shim_path() -> Option<std::path::PathBuf> {
+    let p = report::verif_root().join(".target/fastclock.so");
+    p.exists().then_some(p)
+}
+
+/// `fast`: under the LD_PRELOAD clock shim the monotonic clock runs 200x faster, so anything in
+/// the fixed-depth bench that looks at the wall clock behaves as on a 200x slower machine.
+fn run_bench_with(fast: bool) -> Result<u64, String> {
+    let mut cmd = std::process::Command::new(super::uciproc::engine_path());
+    cmd.arg("bench");
+    if fast {
+        if let Some(p) = shim_path() {
+            cmd.env("LD_PRELOAD", p).env("RCE_VERIF_CLOCK_FACTOR", "200");
+        }
+    }
+    let out = cmd.output().map_err(|e| e.to_string())?;
     let text = String::from_utf8_lossy(&out.stdout);
     for l in text.lines() {
         if let Some(n) = l.strip_suffix(" nodes") {
@@ -103,12 +124,18 @@ fn run_bench() -> Result<u64, String> {
     Err(format!("bench printed no node total (exit {:?})", out.status.code()))
 }
 
+fn run_bench() -> Result<u64, String> {
+    run_bench_with(false)
+}
+
 pub fn run(args: &Args) -> i32 {
     let thorough = args.tier == "thorough";
     let sink = Sink::new("C16", &args.tier);
     // the bench runs compete with the workers for the CPUs: that is the load
     let nbench = if thorough { 4 } else { 2 };
-    let benches: Vec<std::thread::JoinHandle<Result<u64, String>>> = (0..nbench).map(|_| std::thread::spawn(run_bench)).collect();
+    // the last bench run is executed under the accelerated clock (if the shim could be built)
+    let shim = shim_path().is_some();
+    let benches: Vec<std::thread::JoinHandle<Result<u64, String>>> = (0..nbench).map(|k| std::thread::spawn(move || run_bench_with(shim && k == nbench - 1))).collect();
     let merged = match workers::fan_out("C16", &args.tier, &sink, &[]) {
         Ok(m) => m,
         Err(e) => {
@@ -152,7 +179,11 @@ pub fn run(args: &Args) -> i32 {
         }
     }
     if totals.iter().any(|t| *t != totals[0]) {
-        sink.report("bench|runs".into(), format!("concurrent runs of the bench subcommand print different node totals: {totals:?}"), obj(vec![("kind", s("bench"))]));
+        sink.report(
+            "bench|runs".into(),
+            format!("concurrent runs of the bench subcommand print different node totals: {totals:?}{}", if shim { " (the last run had its monotonic clock accelerated 200x)" } else { "" }),
+            obj(vec![("kind", s("bench"))]),
+        );
     }
     let sum = merged.get("bench_position_nodes");
     if merged.get("bench_positions") as usize == bench_fens().len() && totals.first().is_some_and(|t| *t != sum) {
@@ -174,6 +205,7 @@ pub fn run(args: &Args) -> i32 {
             ("process_results_compared".into(), i(procs)),
             ("searches".into(), i(merged.get("searches"))),
             ("bench_runs".into(), i(totals.len() as u64)),
+            ("bench_run_under_200x_clock".into(), J::Bool(shim)),
             ("bench_positions_recomputed".into(), i(merged.get("bench_positions"))),
             ("sampled_dimensions".into(), s("hash seeds of std containers and OS scheduling: 3 processes per pair under full CPU load; these two dimensions are sampled, everything else is enumerated")),
         ],
@@ -186,7 +218,7 @@ pub fn replay(doc: &J) -> i32 {
     let Some(r) = doc.get("replay") else { return 2 };
     if r.get("kind").and_then(|x| x.str()) == Some("bench") {
         let a = run_bench();
-        let b = run_bench();
+        let b = run_bench_with(true);
         println!("bench totals: {a:?} {b:?}");
         return if a == b { 0 } else { 1 };
     }
